@@ -39,6 +39,25 @@ def t_not(x):
     return None if x is None else (not x)
 
 
+MARK_SETS = {}          # predicate name -> its members as a string (filled by mark_predicates)
+BENGALI_CLASSES = ("is_vowel", "is_kar", "is_pure_consonant", "is_ligature_making_kar", "is_left_standing_kar")
+
+
+def mark_predicates(prog):
+    """char → bool predicates that are not one of the Bengali classes and are true only for ASCII punctuation: evaluated as sets."""
+    from engine.analyses import PredEval
+    pe = PredEval(prog)
+    MARK_SETS.clear()
+    for name, k in classes.class_fns(prog).items():
+        if name in BENGALI_CLASSES:
+            continue
+        dom = [chr(c) for c in range(0x20, 0x7f)] + ["ক", "া", "অ", "্", "ঁ", "।"]
+        cs = pe.char_set(k, dom)
+        if cs is not None and cs and all(ord(c) < 0x7f and not c.isalnum() for c in cs):
+            MARK_SETS[name] = "".join(sorted(cs))
+    return MARK_SETS
+
+
 class View:
     """Three-valued view of a path's atoms."""
 
@@ -85,6 +104,10 @@ class View:
         for a, val in self.s.atoms:
             if a[0] == "rmc_in":
                 return val, a[1]
+        # the punctuation set written as a predicate function instead of a string literal
+        for a, val in self.s.atoms:
+            if a[0] == "rmc_pred" and a[1] in MARK_SETS:
+                return val, MARK_SETS[a[1]]
         return None, None
 
 
@@ -174,6 +197,7 @@ def run(ctx):
         if n in prog.fns and n != kv and (prog.fns[n].get("impl") or {}).get("self") == builders.fixed_ty(prog):
             reph_fn = n.split("::")[-1]
 
+    mark_predicates(prog)
     r1 = chk.rule("C12.R1", "every path of the key-value processor (option off) has exactly the effects the documented rule list prescribes",
                   "each key's effect on the composed text follows the documented rules in priority order and otherwise plain appending")
     n_paths = 0
@@ -191,6 +215,8 @@ def run(ctx):
         for a, val in s.atoms:
             if a[0] == "rmc_in":
                 marks_lits.add(a[1])
+            if a[0] == "rmc_pred" and a[1] in MARK_SETS:
+                marks_lits.add(MARK_SETS[a[1]])
         if s.unknown:
             n_unknown += 1
             d, vals, bb = s.unknown[0]
